@@ -108,8 +108,8 @@ static void Array_New(var self, var args) {
   struct Array* a = self;
   a->type   = cast(get(args, $I(0)), Type);
   a->tsize  = Array_Size_Round(size(a->type));
-  a->nitems = len(args)-1;
-  a->nslots = a->nitems;
+  a->nitems = 0;
+  a->nslots = len(args)-1;
   
   if (a->nslots is 0) {
     a->data = NULL;
@@ -124,9 +124,15 @@ static void Array_New(var self, var args) {
   }
 #endif
   
-  for(size_t i = 0; i < a->nitems; i++) {
+  /*
+  ** An element only counts once it has been built: if one of them
+  ** cannot be assigned the Array holds the ones before it, not garbage.
+  */
+  
+  for(size_t i = 0; i < a->nslots; i++) {
     Array_Alloc(a, i);
     assign(Array_Item(a, i), get(args, $I(i+1)));  
+    a->nitems = i+1;
   }
   
 }
@@ -171,8 +177,8 @@ static void Array_Assign(var self, var obj) {
   if (implements_method(obj, Len, len)
   and implements_method(obj, Get, get)) {
   
-    a->nitems = len(obj);
-    a->nslots = a->nitems;
+    a->nitems = 0;
+    a->nslots = len(obj);
     
     if (a->nslots is 0) {
       a->data = NULL;
@@ -187,9 +193,10 @@ static void Array_Assign(var self, var obj) {
     }
   #endif
     
-    for(size_t i = 0; i < a->nitems; i++) {
+    for(size_t i = 0; i < a->nslots; i++) {
       Array_Alloc(a, i);
       assign(Array_Item(a, i), get(obj, $I(i)));  
+      a->nitems = i+1;
     }
   
   } else {
